@@ -121,6 +121,17 @@ type Replay struct {
 	Crash    bool             `json:"crash,omitempty"`
 	FromSeed bool             `json:"generate_from_seed,omitempty"`
 	Race     bool             `json:"race_build,omitempty"`
+	// History: runs executed in the same process before this one (seeds First, First+Stride, ...,
+	// Count of them, each generated from its seed). A violation that depends on state the code
+	// under test keeps across connections of one process (a package-level pool or cache) replays
+	// only together with the runs that put that state there.
+	History *ReplayHistory `json:"history,omitempty"`
+}
+
+type ReplayHistory struct {
+	First  uint64 `json:"first_seed"`
+	Stride uint64 `json:"stride"`
+	Count  int    `json:"count"`
 }
 
 func hasTag(fs []simkit.Failure, tag string) *simkit.Failure {
